@@ -32,6 +32,68 @@ PAIRS = {
 }
 
 
+def borrow_and_newtype(ctx, serde, lexpr, acc):
+    from .. import sim
+    from ..sim import Adt
+    r = ctx.rule("R-BORROW", "strings, byte vectors and identifiers are handed to the visitor as data borrowed from the "
+                             "value (targets that borrow, such as &str, implement only the borrowed visitor method)")
+    want = {"deserialize_str": ("String", "visit_borrowed_str"), "deserialize_string": ("String", "visit_borrowed_str"),
+            "deserialize_bytes": ("Bytes", "visit_borrowed_bytes"), "deserialize_byte_buf": ("Bytes", "visit_borrowed_bytes"),
+            "deserialize_identifier": ("Symbol", "visit_borrowed_str")}
+    for m, (kind, vis) in sorted(want.items()):
+        a = acc.get(m)
+        if a is None:
+            r.anchor_missing("deserializer method " + m)
+            continue
+        got = a.get(kind)
+        if got == vis:
+            r.ok("%s on a %s value calls %s" % (m, kind, vis), serde.fn(ss.DE + m))
+        elif m in ("deserialize_string", "deserialize_byte_buf") and got in ("visit_string", "visit_byte_buf", "visit_str", "visit_bytes", vis):
+            r.ok("%s on a %s value calls %s (owned data is what this method is for)" % (m, kind, got), serde.fn(ss.DE + m))
+        else:
+            r.violation("serde_lexpr::" + ss.DE + m, "not-borrowed:%s" % m,
+                        "%s answers a %s value with %s instead of %s: a target type that borrows from the value (&str, "
+                        "&[u8], Cow with #[serde(borrow)]) serializes fine but cannot be read back"
+                        % (m, kind, got, vis), serde.fn(ss.DE + m).loc() if serde.fn(ss.DE + m) else None)
+    r2 = ctx.rule("R-NEWTYPE-SELF", "a newtype struct is transparent: deserialize_newtype_struct hands the visitor a "
+                                    "deserializer over the very same value, for every kind of value")
+    f = serde.fn(ss.DE + "deserialize_newtype_struct")
+    if f is None:
+        r2.anchor_missing("deserialize_newtype_struct")
+        return
+    inl = lambda a, b: (b.crate == serde.name and b.file.endswith("value/de.rs")) or \
+                       (b.crate == "lexpr" and (b.file.endswith("value/mod.rs") or b.file.endswith("number.rs") or b.file.endswith("cons.rs")))
+    n = 0
+    for lab, val in ss.value_inputs(lexpr):
+        de = Adt("value::de::Deserializer", 0, [ss._cell(val)])
+        S = sim.Sim([serde, lexpr], hooks={"call": ss.de_hook}, inline=inl, max_depth=6, max_paths=3000)
+        same, other = 0, []
+        try:
+            for p in S.run(f, args={1: ss._cell(de)}):
+                if p.end != "return":
+                    continue
+                for e in p.events:
+                    if e[0] == "visit":
+                        arg = e[2][1] if len(e[2]) > 1 else None
+                        inner = S._deref(arg.fields[0], p) if isinstance(arg, Adt) and arg.fields else None
+                        if e[1] == "visit_newtype_struct" and inner is val:
+                            same += 1
+                        else:
+                            other.append(e[1])
+        except sim.Limit:
+            r2.violation("serde_lexpr::" + f.path, "inexact:%s" % lab, "path limit")
+            continue
+        n += 1
+        if same and not other:
+            r2.ok("%s: the visitor gets a deserializer over the same value" % lab, f)
+        else:
+            r2.violation("serde_lexpr::" + f.path, "newtype-not-transparent:%s" % lab,
+                         "for a %s value deserialize_newtype_struct does not pass the value through unchanged (%s): the "
+                         "payload of a newtype struct is serialized as itself, so it is read back as something else"
+                         % (lab, sorted(set(other)) or "no visit_newtype_struct on the value itself"), f.loc())
+    r2.floor("value-kinds", n)
+
+
 def top_kinds(term):
     """Value kinds (labels of serde_shapes.value_inputs) a canonical term can denote at top level."""
     t = term
@@ -141,6 +203,7 @@ def run(ctx):
         else:
             r.violation("serde_lexpr::" + f.path, "variant-payload", "VariantAccess::%s no longer takes the variant payload "
                                                                   "from the cdr%s" % (m, "" if want == "cdr" else " via " + want), f.loc())
+    borrow_and_newtype(ctx, serde, lexpr, acc)
     ra = ctx.rule("R-ARITY", "every collector method records exactly one element / entry on each successful path "
                             "(a field or element that is skipped cannot be deserialized again)")
     na = 0
